@@ -7,7 +7,7 @@
 From Coq Require Import String.
 From Coq Require Import List NArith Bool.
 From HDW Require Import Lib.Outcome Lib.Bytes Model.Bip39 Spec.Bip39Spec Model.Seed Proofs.ConcreteProofs.
-From HDW Require Import Prim.Sha256 Prim.Nfkd Prim.Pbkdf2.
+From HDW Require Import Prim.Sha256 Prim.Nfkd Prim.Pbkdf2 Proofs.NfkdProofs.
 From HDW Require Props.C02.
 Import ListNotations.
 
@@ -63,3 +63,35 @@ Theorem C02k_seed_exists : forall t m pw, from_phrase sha256 t = Ok m ->
   exists sd, seed pbkdf2_hmac_sha512 nfkd m pw = Ok sd /\ length sd = 64%nat.
 Proof. exact seed_of_parsed_ok. Qed.
 Print Assumptions C02k_seed_exists.
+
+(** NFKD is a normal form: applying it twice changes nothing (the decomposition table is closed and
+    canonical reordering is idempotent, [Proofs/NfkdProofs.v]) *)
+Theorem C02k_nfkd_idempotent : forall t, nfkd (nfkd t) = nfkd t.
+Proof. exact nfkd_idempotent. Qed.
+Print Assumptions C02k_nfkd_idempotent.
+
+(** the seed depends on the passphrase only through its normal form: a passphrase and its
+    NFKD-normalised spelling give the same seed ... *)
+Theorem C02k_seed_of_normalised_passphrase : forall m pw,
+  seed pbkdf2_hmac_sha512 nfkd m pw = seed pbkdf2_hmac_sha512 nfkd m (nfkd pw).
+Proof.
+  intros m pw. apply (C02.C02_nfkd_equiv_concrete m pw (nfkd pw)).
+  symmetry. apply nfkd_idempotent.
+Qed.
+Print Assumptions C02k_seed_of_normalised_passphrase.
+
+(** ... and any two passphrases with the same normal form do (the hypothesis is on the normal
+    forms, which is decidable by computing them) *)
+Theorem C02k_seed_depends_on_normal_form : forall m p1 p2,
+  nfkd p1 = nfkd p2 -> seed pbkdf2_hmac_sha512 nfkd m p1 = seed pbkdf2_hmac_sha512 nfkd m p2.
+Proof. exact C02.C02_nfkd_equiv_concrete. Qed.
+Print Assumptions C02k_seed_depends_on_normal_form.
+
+(** non-vacuity: a precomposed and a decomposed spelling (U+00E9 vs e + U+0301; the ligature
+    U+FB01 vs "fi"; the Hangul syllable U+D55C vs its three jamo) have equal normal forms *)
+Example C02k_normal_form_witnesses :
+  nfkd [233%N] = nfkd [101%N; 769%N] /\ nfkd [64257%N] = nfkd [102%N; 105%N] /\
+  nfkd [54620%N] = [4370%N; 4449%N; 4523%N] /\
+  nfkd [113%N; 803%N; 775%N] = nfkd [113%N; 775%N; 803%N].
+Proof. vm_compute. repeat split; reflexivity. Qed.
+Print Assumptions C02k_normal_form_witnesses.
